@@ -591,7 +591,16 @@ class __Class(_pre.Pregex):
         ranges1, chars1 = __class__.__extract_classes(pre1.__verbose, unescape=True)
         ranges2, chars2 = __class__.__extract_classes(pre2.__verbose, unescape=True)
 
-        # 2.a. Subtract ranges2 from chars1.
+        # 2.a. Subtract any characters in chars2 from ranges1.
+        ranges1, reduced_chars = subtract_ranges(ranges1, set(f"{c}-{c}" for c in chars2))
+        chars1 = chars1.union(reduced_chars)
+
+        # 2.b. Subtract ranges2 from ranges1.
+        ranges1, reduced_chars = subtract_ranges(ranges1, ranges2)
+        chars1 = chars1.union(reduced_chars)
+
+        # 2.c. Subtract ranges2 from chars1, including any characters
+        # that the previous two steps have split off from ranges1.
         splt_ranges2 = [__class__.__split_range(rng) for rng in ranges2]
         lst_chars1 = list(chars1)
 
@@ -599,22 +608,14 @@ class __Class(_pre.Pregex):
             i = 0
             while i < len(lst_chars1):
                 c = lst_chars1[i]
-                if c.isalnum and c >= start and c <= end:
+                if c >= start and c <= end:
                     lst_chars1.pop(i)
                     i = -1
                 i += 1
         chars1 = set(lst_chars1)
 
-        # 2.b Subtract chars2 from chars1.
+        # 2.d Subtract chars2 from chars1.
         chars1 = chars1.difference(chars2)
-
-        # 2.c. Subtract any characters in chars2 from ranges1.
-        ranges1, reduced_chars = subtract_ranges(ranges1, set(f"{c}-{c}" for c in chars2))
-        chars1 = chars1.union(reduced_chars)
-
-        # 2.d. Subtract ranges2 from ranges1.
-        ranges1, reduced_chars = subtract_ranges(ranges1, ranges2)
-        chars1 = chars1.union(reduced_chars)
 
         # 3. Union ranges and chars together while escaping them.
         result = __class__.__modify_classes(ranges1.union(chars1), escape=True)
